@@ -170,6 +170,16 @@ pub struct World<S: Sut> {
     pub quiet: bool,
 }
 
+/// `a != b` through the crate's own `==`, which may panic (MVReg::eq has a sanity assertion): a panic counts as
+/// "differs" for the structural monitors; the `==` panic itself is reported by the C20 monitor
+pub fn differs<S: PartialEq>(a: &S, b: &S) -> bool {
+    std::panic::catch_unwind(std::panic::AssertUnwindSafe(|| a != b)).unwrap_or(true)
+}
+/// `a != b` where a panicking `==` is *not* counted (properties that are not about `==`)
+pub fn differs_lenient<S: PartialEq>(a: &S, b: &S) -> bool {
+    std::panic::catch_unwind(std::panic::AssertUnwindSafe(|| a != b)).unwrap_or(false)
+}
+
 /// number of pending (deferred) removes anywhere in a dumped state
 pub fn pending_count(d: &Dump) -> usize {
     match d {
@@ -710,7 +720,7 @@ impl<S: Sut> World<S> {
             if o2 != *obs {
                 return Err(self.v("dup", k, format!("r{r}: re-applying known op{j} ({}) changed reads:\n   before {}\n   after  {}", self.descs[j], obs.show(), o2.show())));
             }
-            if self.cfg.has(mon::STRUCT) && c != self.reps[r] {
+            if self.cfg.has(mon::STRUCT) && differs(&c, &self.reps[r]) {
                 return Err(self.v("dupeq", k, format!("r{r}: re-applying known op{j} ({}) changed the state structurally:\n   before {}\n   after  {}", self.descs[j], dump(&self.reps[r]).show(), dump(&c).show())));
             }
         }
@@ -732,7 +742,7 @@ impl<S: Sut> World<S> {
             if o2 != *obs {
                 return Err(self.v("stale", k, format!("r{r}: merging subsumed state pool#{i} (K={:#x}) changed reads:\n   before {}\n   after  {}\n   stale  {}", self.pool[i].1, obs.show(), o2.show(), dump(&self.pool[i].0).show())));
             }
-            if self.cfg.has(mon::STRUCT) && c != self.reps[r] {
+            if self.cfg.has(mon::STRUCT) && differs(&c, &self.reps[r]) {
                 return Err(self.v("staleeq", k, format!("r{r}: merging subsumed state pool#{i} changed the state structurally:\n   before {}\n   after  {}", dump(&self.reps[r]).show(), dump(&c).show())));
             }
         }
@@ -975,7 +985,7 @@ impl<S: Sut> World<S> {
             Ok(js) => match serde_json::from_str::<S>(&js) {
                 Err(e) => return Err(self.v("serde", k, format!("r{r} state does not deserialise: {e}\n   json {js}"))),
                 Ok(back) => {
-                    if back != self.reps[r] || dump(&back) != *dmp {
+                    if differs_lenient(&back, &self.reps[r]) || dump(&back) != *dmp {
                         return Err(self.v("serde", k, format!("r{r} state round trip differs:\n   before {}\n   after  {}", dmp.show(), dump(&back).show())));
                     }
                     if back.observe() != self.reps[r].observe() {
@@ -1035,7 +1045,7 @@ impl<S: Sut> World<S> {
             self.st.ev("shadow_step");
             let a = self.reps[r].observe();
             let b = self.shadows[i].1.observe();
-            if a != b || dump(&self.reps[r]) != dump(&self.shadows[i].1) || self.reps[r] != self.shadows[i].1 {
+            if a != b || dump(&self.reps[r]) != dump(&self.shadows[i].1) || differs_lenient(&self.reps[r], &self.shadows[i].1) {
                 return Err(self.v("shadow", self.know[r], format!("replica r{r} and its serde-restored shadow diverged:\n   original {}\n   shadow   {}", dump(&self.reps[r]).show(), dump(&self.shadows[i].1).show())));
             }
             // ops generated from either must be identical
@@ -1129,7 +1139,7 @@ impl<S: Sut> World<S> {
             self.st.ev("canonical");
             match serde_json::from_str::<S>(&js) {
                 Ok(c) => {
-                    if c != self.reps[r] {
+                    if differs(&c, &self.reps[r]) {
                         return Err(self.v("residue", k, format!("r{r} differs from the canonical state (clock + surviving elements with their witnesses):\n   state     {}\n   canonical {}", d.show(), dump(&c).show())));
                     }
                 }
